@@ -33,7 +33,49 @@ def jobs(tier):
                         continue
                     js.append(("job_side", dict(_name="q=%s class=%s restored=%d msg=%s" % (qn, cls, restored, shape),
                                                 qn=qn, cls=cls, restored=restored, shape=shape)))
+    # reflection compares elements, so it is re-run on the real groups: any accepted encoding of the own element is refused
+    for g in (["I1024", "Ed25519"] if tier == "quick" else ["I1024", "I2048", "I3072", "Ed25519"]):
+        for cls in "ABS":
+            for dl in (0, -1, 1):
+                js.append(("job_real_reflect", dict(_name="real %s class=%s body length W%+d" % (g, cls, dl), gname=g, cls=cls, dl=dl)))
     return js
+
+
+def job_real_reflect(J, gname, cls, dl):
+    """real group code (exponent domain / abstract points): a key is never returned for a body that decodes to the element
+    the instance itself sent -- whatever byte string encodes it"""
+    from checks import realtier as RT
+    J.bounds.update(group=gname, cls=cls, body_length="W%+d" % dl)
+
+    def h(ctx):
+        w = RT.make_world(ctx, gname)
+        try:
+            pw, idA, idB = sym_inputs((1, 1, 1))
+            inst = new_instance(cls, w.params, pw, idA, idB, Entropy("ent", max_calls=1))
+            own = SymBytes.of(inst.start())
+            msg = SymBytes([SIDE_BYTE[PEER[cls]]]) + SymBytes.fresh_chunk("body", w.W + dl)
+            d = dict(own=own, msg=msg, inst=inst, pw=pw, idA=idA, idB=idB, W=w.W)
+            ctx.data["w"] = d
+            d["o"] = outcome(inst.finish, msg)
+            if d["o"][0] == "ret":
+                d["inb_val"] = msg[1:].value()
+                d["own_val"] = own[1:].value()
+            return okind(d["o"])
+        finally:
+            RT.teardown(w)
+    for r in J.explore(h, max_paths=60):
+        d = r.ctx.data.get("w")
+        J.reach(r)
+        cex = lambda m, d=d: dict(cls=cls, restored=0, shape="full", side=SIDE_BYTE[PEER[cls]], mode="own-any-encoding",
+                                  pw=d["pw"].model_bytes(m) if d else b"p", idA=d["idA"].model_bytes(m) if d else b"a",
+                                  idB=d["idB"].model_bytes(m) if d else b"b", x=3)
+        if r.kind != "ret":
+            J.claim(r, "real %s session starts (%s)" % (gname, type(r.value).__name__), False, cex=cex, oracle="side")
+            continue
+        if r.value == "key":
+            J.claim(r, "real %s: a key only for a body of exactly element width" % gname, dl == 0, cex=cex, oracle="side")
+            J.claim(r, "real %s: a key never for a body with the integer value of the own element" % gname,
+                    d["inb_val"] != d["own_val"], cex=cex, oracle="side")
 
 
 def job_side(J, qn, cls, restored, shape):
@@ -130,11 +172,38 @@ def oracle_side(cls, restored, shape, side, mode, pw, idA, idB, x):
     peer_cls = {"A": "B", "B": "A", "S": "S"}[cls]
     peer_side = {"A": b"A", "B": b"B", "S": b"S"}[peer_cls]
     sides = [None] if side is None else sorted({side, 0x41, 0x42, 0x53, 0x43, 0x00, 0xff})
+    # the own element under alternative byte strings (shorter big-endian form when it starts with 00, zero-padded, ...)
+    for nm in ("I1024", "toy1019", "Ed25519"):
+        params = C.params_by_name(nm)
+
+        def mk0(xx):
+            e = C.entropy_for_scalar(params.group, xx)
+            return K[cls](pw, idSymmetric=idA, params=params, entropy_f=e) if cls == "S" else K[cls](pw, idA=idA, idB=idB, params=params, entropy_f=e)
+        xz, mz = (C.leading_zero_scalar(lambda xx: mk0(xx).start()) if nm != "Ed25519" else (x % C.group_order(params.group) or 1, None))
+        if xz is None:
+            continue
+        for rst in (0, 1):
+            inst = mk0(xz)
+            own = inst.start()
+            if rst:
+                inst = K[cls].from_serialized(inst.serialize(), params=params)
+            alts = [own[1:], b"\x00" + own[1:], own[1:] + b"\x00"]
+            if own[1] == 0:
+                alts += [own[2:], own[2:] + b"\x00"]
+            for body in alts:
+                i2 = mk0(xz)
+                i2.start()
+                if rst:
+                    i2 = K[cls].from_serialized(i2.serialize(), params=params)
+                o = C.finish_outcome(i2, peer_side + body)
+                if o[0] == "key":
+                    return (True, "class=%s restored=%d params=%s: a key is returned for the instance's own element sent back as %d bytes "
+                            "(element width %d)" % (cls, rst, nm, len(body), len(own) - 1))
     for nm in ("Ed25519", "I1024", "I2048", "I3072", "toy11"):
         params = C.params_by_name(nm)
         q = C.group_order(params.group)
         for sd in sides:
-            for md in {mode, "own", "peer"}:
+            for md in {mode if mode in ("own", "peer", "junk") else "own", "own", "peer"}:
                 def mk(c, xx):
                     if c == "S":
                         return K[c](pw, idSymmetric=idA, params=params, entropy_f=C.entropy_for_scalar(params.group, xx))
